@@ -66,7 +66,9 @@ Step ==
        [] e.k = "script" -> err' = "replay.script" /\ T' = T /\ ph' = ph
        [] e.k = "ctor" -> err' = "ctor.raises" /\ T' = T /\ ph' = ph
        [] e.k = "end" ->
-            /\ err' = IF e.dom_same = 1 THEN "ok" ELSE "end.domain-mutated"
+            /\ err' = IF e.dom_same # 1 THEN "end.domain-mutated"
+                      ELSE IF T.n > 0 /\ ~StructOK(PP, T) THEN "final.struct"
+                      ELSE IF T.n > 0 /\ ~AllInsideRoot(T) THEN "final.outside-root" ELSE "ok"
             /\ T' = T /\ ph' = ph
        [] OTHER -> err' = "unknown-event" /\ T' = T /\ ph' = ph
   /\ l' = l + 1 /\ UNCHANGED <<tid, done>>
@@ -79,7 +81,4 @@ Finish ==
 Next == Step \/ Finish
 Spec == Init /\ [][Next]_vars
 
-\* evaluated in every state of every trace
-InvInsideRoot == T.n > 0 => AllInsideRoot(T)
-InvFinalStruct == (done /\ err = "ok" /\ T.n > 0) => StructOK(PP, T)
 =============================================================================
